@@ -224,17 +224,19 @@ fn gen_numeral(r: &mut Rng) -> String {
         1 => s.push('-'),
         _ => {}
     }
-    let lmax = if r.chance(1, 40) { 5000 } else if r.chance(1, 5) { 300 } else { 30 };
+    let lmax = if r.chance(1, 25) { 5000 } else if r.chance(1, 5) { 300 } else { 30 };
     let int_len = if r.chance(1, 6) { 0 } else { gen::length(r, lmax) };
     let frac_len = if r.chance(1, 3) { 0 } else { gen::length(r, lmax) };
+    // separator density: none (half of the numerals), dense, or sparse
+    let us_den = match r.below(4) { 0 | 1 => 0, 2 => 9, _ => 300 };
     let put_digits = |r: &mut Rng, s: &mut String, n: usize| {
         for i in 0..n {
             s.push((b'0' + r.below(10) as u8) as char);
-            if i + 1 < n && r.chance(1, 9) {
+            if us_den > 0 && i + 1 < n && r.chance(1, us_den) {
                 s.push('_');
             }
         }
-        if n > 0 && r.chance(1, 12) {
+        if us_den > 0 && n > 0 && r.chance(1, 12) {
             s.push('_');
         }
     };
